@@ -86,29 +86,41 @@ bool RSEquationProcessor::PrecheckFor(const EntityUID key, const EntityUID value
   }
 }
 
-rslang::ExpressionType RSEquationProcessor::Evaluate(const EntityUID uid) const {
+std::optional<rslang::ExpressionType> RSEquationProcessor::Evaluate(const EntityUID uid) const {
   const auto* type = schema.GetParse(uid).TypePtr();
   if (!std::holds_alternative<rslang::Typification>(*type)) {
     return *type;
   } else {
     auto typificationText = std::get<rslang::Typification>(*type).ToString();
+    auto rounds = 0U;
     while (rslang::SubstituteGlobals(typificationText, nameSubstitutes) > 0) {
+      if (++rounds > std::size(nameSubstitutes)) {
+        return std::nullopt; // Note: substitutions form a cycle through typifications
+      }
       const auto fixedType = schema.RSLang().Evaluate(typificationText);
-      assert(fixedType.has_value());
-      // NOLINTNEXTLINE(bugprone-unchecked-optional-access)
+      if (!fixedType.has_value() ||
+          !std::holds_alternative<rslang::Typification>(fixedType.value()) ||
+          !std::get<rslang::Typification>(fixedType.value()).IsCollection()) {
+        return std::nullopt; // Note: substitution does not yield a set
+      }
       typificationText = std::get<rslang::Typification>(fixedType.value()).B().Base().ToString();
     }
-    // NOLINTNEXTLINE(bugprone-unchecked-optional-access)
-    return std::get<rslang::Typification>(schema.RSLang().Evaluate(typificationText).value());
+    const auto result = schema.RSLang().Evaluate(typificationText);
+    if (!result.has_value() || !std::holds_alternative<rslang::Typification>(result.value())) {
+      return std::nullopt;
+    }
+    return result.value();
   }
 }
 
 bool RSEquationProcessor::CheckNonBasicEquations() const {
   for (const auto& [key, value] : *equations) {
-    if (!IsBaseSet(schema.GetRS(key).type) && 
-        !IsBaseSet(schema.GetRS(value).type) &&
-        Evaluate(key) != Evaluate(value)) {
-      return false;
+    if (!IsBaseSet(schema.GetRS(key).type) && !IsBaseSet(schema.GetRS(value).type)) {
+      const auto keyType = Evaluate(key);
+      const auto valueType = Evaluate(value);
+      if (!keyType.has_value() || !valueType.has_value() || keyType.value() != valueType.value()) {
+        return false;
+      }
     }
   }
   return true;
